@@ -27,8 +27,15 @@ Definition U32_MAX : Z := 4294967295.
 Definition round_half_away (q : Q) : Z :=
   if Qle_bool 0 q then Qfloor (q + (1 # 2)) else Z.opp (Qfloor ((- q) + (1 # 2))).
 
-(** `misalignment.abs() >= 1.0 / (sample_rate * 100.0)`; for rate 0 the bound is +infinity. *)
+(** `misalignment.abs() >= max_misalignment` with (after /repo commit b8fb6ef) both in seconds:
+    `misalignment = (duration * rate - count) / rate`, `max_misalignment = 1.0 / (rate * 100.0)`,
+    i.e. 1% of a sample for a positive rate.  [mis] is the misalignment in samples.  For rate 0 the
+    quotient is NaN and the comparison false. *)
 Definition misaligned (mis r : Q) : bool :=
+  if Qeq_bool r 0 then false else Qle_bool (/ (r * 100)) (Qabs (mis / r)).
+
+(** The rule before that fix compared the misalignment in SAMPLES with the tolerance in seconds. *)
+Definition misaligned_unfixed (mis r : Q) : bool :=
   if Qeq_bool r 0 then false else Qle_bool (/ (r * 100)) (Qabs mis).
 
 Definition sample_count (d r : Q) : err + N :=
@@ -37,6 +44,14 @@ Definition sample_count (d r : Q) : err + N :=
   let mis := f - inject_Z n in
   if (n <? 0)%Z || (U32_MAX <=? n)%Z then inl ErrRange
   else if misaligned mis r then inl ErrMisaligned
+  else inr (Z.to_N n).
+
+Definition sample_count_unfixed (d r : Q) : err + N :=
+  let f := d * r in
+  let n := round_half_away f in
+  let mis := f - inject_Z n in
+  if (n <? 0)%Z || (U32_MAX <=? n)%Z then inl ErrRange
+  else if misaligned_unfixed mis r then inl ErrMisaligned
   else inr (Z.to_N n).
 
 (** `(pad * sample_rate).ceil() as usize`: the cast saturates, negative values become 0. *)
